@@ -83,6 +83,12 @@ CHECKS.update({
                 design="4/C19, 2.5", note=BASE_NOTE + " Synthetic libraries live in probe_libs/ (vlib_a, vlib_a.sub, vlib_ab, vlib_c)."),
 })
 
+CHECKS.update({
+    "C09": dict(engine="heap", technique="TLC: Immutable (action property) + FuzzyInRange on MPHeap.tla over all histories of producer/consumer kinds; real consumer histories with per-object digests validated by TLC (MPHeapTrace.tla)",
+                text="TLC checks on the aliasing model that no history of out-of-place, copy-then-in-place, alias-returning and alias-then-clamp consumers changes the visible part of an existing result object, and that this rests on fuzzy producers being in range (negative configs refute it otherwise); on the real code every consumer command runs with every compatible finished producer (1-3 inputs, repeats, alias-returning single-input forms) and in random histories, shape/dtype/mask/unmasked-value digests of every finished result are taken after each execution, and TLC validates that no known object's digest changes.",
+                design="4/C09, 2.2", note=BASE_NOTE + " Bytes beneath a mask may change."),
+})
+
 NOT_YET = "check not built yet (build in progress; see DESIGN.md section 4b build order)"
 
 
@@ -126,6 +132,7 @@ def main():
             {"name": "serial", "path": "harness/serial.py", "serves_properties": ["C15"], "kind_free_text": "TLC (spec/MPSerialize.tla, MPSerializeTrace.tla) + to_string/from_source driver"},
             {"name": "eems2", "path": "harness/eems2.py", "serves_properties": ["C16"], "kind_free_text": "TLC (spec/MPEems2.tla, MPEems2Trace.tla; MC_Eems2/MC_Decl generated) + loader driver"},
             {"name": "registry", "path": "harness/registry.py", "serves_properties": ["C19"], "kind_free_text": "TLC (spec/MPRegistry.tla, MPRegistryTrace.tla) + forked replay children"},
+            {"name": "heap", "path": "harness/heap.py", "serves_properties": ["C09"], "kind_free_text": "TLC (spec/MPHeap.tla, MPHeapTrace.tla) + digest histories over the real commands"},
             {"name": "validate", "path": "harness/validate.py", "serves_properties": ["C12", "C13"],
              "kind_free_text": "TLC (spec/MPValidateDefs.tla, MPValidate.tla, MPValidateTrace.tla, MPCli.tla, MPCliTrace.tla; MC_Decl generated by harness/decl.py) + renderer/runner"},
         ],
